@@ -1,0 +1,44 @@
+//go:build verif
+// +build verif
+
+package txmgr
+
+// Read-only accessors for the verification harness (/verif). No logic of their own.
+
+import (
+	"github.com/massnetorg/mass-core/wire"
+	mwdb "massnet.org/mass-wallet/masswallet/db"
+)
+
+// VerifUnmined lists the pending-transaction bucket: hash and whether the stored value
+// decodes back to a transaction with that hash.
+func (s *TxStore) VerifUnmined(tx mwdb.ReadTransaction) (hashes []wire.Hash, readable []bool, err error) {
+	ns := tx.FetchBucket(s.bucketMeta.nsUnmined)
+	entries, err := ns.GetByPrefix(nil)
+	if err != nil {
+		return nil, nil, err
+	}
+	for _, e := range entries {
+		var h wire.Hash
+		copy(h[:], e.Key)
+		var rec TxRecord
+		ok := readRawUnmined(e.Value, &rec) == nil
+		if ok {
+			ok = rec.MsgTx.TxHash() == h
+		}
+		hashes = append(hashes, h)
+		readable = append(readable, ok)
+	}
+	return
+}
+
+// VerifBuckets returns the bucket metas by short name, for raw residue scans.
+func (m *StoreBucketMeta) VerifBuckets() map[string]mwdb.BucketMeta {
+	return map[string]mwdb.BucketMeta{
+		"unmined": m.nsUnmined, "txrecords": m.nsTxRecords, "blocks": m.nsBlocks,
+		"unspent": m.nsUnspent, "unminedinputs": m.nsUnminedInputs, "unminedcredits": m.nsUnminedCredits,
+		"minedbalance": m.nsMinedBalance, "credits": m.nsCredits, "debits": m.nsDebits,
+		"addresses": m.nsAddresses, "gamehistory": m.nsGameHistory, "unminedgamehistory": m.nsUnminedGameHistory,
+		"sync": m.nsSyncBucketName, "walletstatus": m.nsWalletStatus,
+	}
+}
